@@ -199,6 +199,10 @@ def evaluate(case):
                         continue
                     if not (0 <= s < e2 <= extent):
                         vs.append(verdict("request-in-extent", f"C06/request-outside-extent/{'eof' if eof_ok else 'pre-eof'}", f"step {idx}: ({s},{e2}) extent {extent}"))
+                    elif not eof_ok and pk == "FD" and stored.intersects(s, e2):
+                        # before the EOF every NAK stems from handling this very File Data PDU: it must
+                        # not ask for bytes stored so far including the segment that triggered it
+                        vs.append(verdict("request-only-missing", "C06/request-covers-stored-bytes/pre-eof", f"step {idx}: ({s},{e2}) stored {stored.r}"))
                     elif stored_before.intersects(s, e2):
                         vs.append(verdict("request-only-missing", f"C06/request-covers-stored-bytes/{'eof' if eof_ok else 'pre-eof'}", f"step {idx}: ({s},{e2}) stored {stored_before.r}"))
                     if deferred_call and not (p.start_of_scope <= s and e2 <= p.end_of_scope):
